@@ -182,6 +182,15 @@ func arg(ci ssa.CallInstruction, i int) ssa.Value {
 		if f := an.StaticCallee(ci); f != nil && f.Signature.Recv() != nil && an.BoundReceiver(ci) == nil {
 			off = 1
 		}
+		if f := an.StaticCallee(ci); f != nil {
+			// a pinned function that became a method (or the other way round): count as the pinned signature did
+			if had, renamed := an.RenamedHadRecv(f); renamed && an.BoundReceiver(ci) == nil {
+				off = 0
+				if had {
+					off = 1
+				}
+			}
+		}
 	}
 	if i+off < len(c.Args) {
 		return c.Args[i+off]
